@@ -1029,7 +1029,7 @@ def c02_runner(prop, tier, seed, scratch, spec):
         "commits_without_an_observed_state_before_and_after": n_unattributed,
         "image_kinds": dict(kinds),
         "commit_step_order": steps,
-        "cow_premises": {"commits_evaluated": len(cow_items), "ok": n_cow_ok, "what": "per real commit, by the Lean driver (jmodel cow): no data write touches a header page or a page owned by the decoded state the commit began from; the file without the header write decodes to exactly the previous state; the new header goes to the other slot with a greater id; the state it names is readable from the file before the header write; the new state owns no header page — the premises of Jamm.Props.C02.any_partial_commit_shows_previous_state and header_write_switches_states"},
+        "cow_premises": {"commits_evaluated": len(cow_items), "ok": n_cow_ok, "what": "per real commit, by the Lean driver (jmodel cow): no data write touches a header page or a page owned by the decoded state the commit began from; the file without the header write decodes to exactly the previous state; the new header goes to the other slot with a greater id; the state it names is readable from the file before the header write; the new state owns no header page; every page of the new state was either written by this commit or is a page of the previous state (the copy-on-write structure SharedV) — the premises of Jamm.Props.C02.any_partial_commit_shows_previous_state, header_write_switches_states and whole_copy_on_write_commit_is_atomic"},
         "floors": "at least one logged commit per base history, every image kind present, at most 10%% of the commits unattributed, at least 20 images per commit, the copy-on-write premises evaluated on at least 90%% of the logged commits",
     }
     low = []
